@@ -194,6 +194,7 @@ fn server_bases(tier: Tier) -> Vec<SCfg> {
                             cap,
                             alphabet: alpha,
                             fault: None,
+                            serve_on_after_error: false,
                             eof_at_end: true,
                             route,
                             burst: false,
@@ -378,6 +379,36 @@ pub fn run_c09(tier: Tier) -> i32 {
             nviol += 1;
         }
     }
+    // below the Sink/Stream seam: the shipped serde transport over a failing byte medium
+    let io_cases = crate::codec::io_cases();
+    let mut io_seen: std::collections::BTreeSet<String> = Default::default();
+    let mut io_outcomes: std::collections::BTreeSet<String> = Default::default();
+    for c in &io_cases {
+        let r = std::panic::catch_unwind(std::panic::AssertUnwindSafe(|| crate::codec::run_io_case(c)));
+        let (sig, msg) = match r {
+            Ok(Ok(d)) => {
+                io_outcomes.insert(d.split(": ").last().unwrap_or("").to_string());
+                continue;
+            }
+            Ok(Err(e)) => e,
+            Err(_) => ("C09-panic".to_string(), format!("{c:?}: {}", crate::mock::take_panic())),
+        };
+        if sig == "C09-machinery" {
+            machinery.push(msg);
+            continue;
+        }
+        if !io_seen.insert(sig.clone()) {
+            continue;
+        }
+        let dir = verif_dir().join("replays").join("C09");
+        let _ = std::fs::create_dir_all(&dir);
+        let path = dir.join(format!("io-{}.json", sig));
+        let doc = json!({"property": "C09", "harness": "io-grid", "signature": sig, "message": msg, "config": c, "choices": []});
+        std::fs::write(&path, serde_json::to_string_pretty(&doc).unwrap()).unwrap();
+        println!("VIOLATION property=C09 replay={}", path.display());
+        eprintln!("  {sig}: {msg}");
+        nviol += 1;
+    }
     let mut samples = vec![];
     if let Some((c, p)) = &t.sample {
         let r = run_any(c, p, true);
@@ -387,7 +418,9 @@ pub fn run_c09(tier: Tier) -> i32 {
     let ev = json!({
         "property_id": "C09", "tier": tier.name(), "seed": seed(), "level": "fault_enumeration",
         "coverage": {
-            "evaluations": t.bases + t.fault_runs,
+            "evaluations": t.bases + t.fault_runs + io_cases.len() as u64,
+            "byte_medium_fault_cases": io_cases.len(),
+            "byte_medium_distinct_outcomes": io_outcomes.len(),
             "bases": t.bases,
             "fault_runs": t.fault_runs,
             "fault_runs_per_op": {"poll_ready": t.per_op[0], "start_send": t.per_op[1], "poll_flush": t.per_op[2], "poll_close": t.per_op[3], "poll_next": t.per_op[4]},
@@ -396,7 +429,7 @@ pub fn run_c09(tier: Tier) -> i32 {
             "states": t.states.len(),
             "transitions": t.transitions,
             "traces_validated_against_impl": t.bases + t.fault_runs,
-            "rule": format!("bases = every fault-free execution with <= {base_bound} deviations of every base configuration (client: 1-3 calls x in-flight limit x transport flavour x peer policy x abandonment; server: 1-3 requests x limit x sink flavour x route x handler policy); for every base, every operation kind and every k <= number of calls of that kind in the base: the base's prefix cut at the k-th call, re-run with that call failing (one-shot and sticky; reads also as end-of-stream), completed canonically. Non-trivial = the planned fault actually fired; distinct = distinct trace hashes"),
+            "rule": format!("bases = every fault-free execution with <= {base_bound} deviations of every base configuration (client: 1-3 calls x in-flight limit x transport flavour x peer policy x abandonment; server: 1-3 requests x limit x sink flavour x route x handler policy); for every base, every operation kind and every k <= number of calls of that kind in the base: the base's prefix cut at the k-th call, re-run with that call failing (one-shot and sticky; reads also as end-of-stream), completed canonically; plus the shipped serde transport (Json, Bincode) over a byte medium that fails with each of 39 io::ErrorKinds at the first read / after one whole message / inside the second message / at every write / at every flush, observed at three levels: the transport's own stream, a real client dispatch with one call outstanding, a real server channel. Non-trivial = the planned fault actually fired; distinct = distinct trace hashes"),
             "samples": samples,
             "exhaustive": machinery.is_empty(),
             "base_deviation_bound": base_bound,
@@ -426,6 +459,24 @@ pub fn run_c09(tier: Tier) -> i32 {
 }
 
 pub fn replay_c09(doc: &Value, path: &str) -> i32 {
+    if doc["harness"].as_str() == Some("io-grid") {
+        let c: crate::codec::IoCase = serde_json::from_value(doc["config"].clone()).expect("config");
+        return match crate::codec::run_io_case(&c) {
+            Ok(d) => {
+                println!("{d}");
+                0
+            }
+            Err((sig, msg)) => {
+                println!("violated: {sig} — {msg}");
+                if doc["signature"].as_str() == Some(sig.as_str()) {
+                    println!("VIOLATION property=C09 replay={path}");
+                    1
+                } else {
+                    0
+                }
+            }
+        };
+    }
     let choices: Vec<u16> = doc["choices"].as_array().unwrap().iter().map(|c| c.as_u64().unwrap() as u16).collect();
     let cfg = if doc["harness"].as_str().unwrap_or("").starts_with("server") {
         AnyCfg::S(serde_json::from_value(doc["config"].clone()).expect("config"))
